@@ -203,6 +203,9 @@ def run(model, rep, tier):
               "the emitted pointer is not 0xC000 + the stored offset", stmt="pointer-emit")
     rep.check(pat.has(tw.node, "file.write(__s)\nbreak", ep), "R-01.4", tw.qualname, where(tw, tw.node), "a pointer ends the name", "labels are written after a pointer", stmt="pointer-terminates")
 
+    from rules.c08 import check_rollback_purge
+    check_rollback_purge(model, rep, "R-01.4")
+
     # ---------------------------------------------------------------- R-01.5 / R-01.6
     esc = _folded_bytes(model, nm, "_escaped")
     esc_text = _folded_bytes(model, nm, "_escaped_text")
